@@ -26,7 +26,7 @@ TECHNIQUE = "static analysis: polynomial byte-effect identities between sibling 
 def r1(run, tree):
     run.rule("C13.R1", "skip = read, in bytes (mesh blocks, step_over, particle header)", "D1 + sibling agreement", "", floor=12)
     io.check_bodies(run, tree)
-    io.check_part_header(run, tree)
+    io.check_part_header(run, tree, only_read_vs_skip=True)
 
 
 def r2(run, tree):
